@@ -596,7 +596,26 @@ def link_start_ssl(ctx, mir, stats):
 # --------------------------------------------------------------------------
 # C01: cssp_connect ordering
 # --------------------------------------------------------------------------
+CSSP_TLS = open(os.path.join(os.path.dirname(os.path.abspath(__file__)), "natives", "cssp_tls.rs")).read()
+CSSP_FORGED_NATIVE = {"test": "verif_replay_cssp_forged_echo", "files": {"src/nla/cssp.rs": CSSP_TLS}}
+CSSP_RESTRICTED_NATIVE = {"test": "verif_replay_cssp_restricted_credentials", "files": {"src/nla/cssp.rs": CSSP_TLS}}
+CSSP_HOSTILE_NATIVE = {"test": "verif_replay_cssp_hostile_rounds", "files": {"src/nla/cssp.rs": CSSP_TLS}}
+
+
 def cssp_order(ctx, mir, stats):
+    """The structural decision; when the code is no longer recognised the alarm is confirmed (or not) by driving the real
+    cssp_connect over a real in-memory TLS session against a scripted server that forges the last-round reply."""
+    try:
+        return _cssp_order(ctx, mir, stats)
+    except Inconclusive as e:
+        f = find_fn(mir, r"^cssp_connect$")
+        return [{"id": "cssp:recognised-acceptance-test", "ok": False, "functions": [f.name], "needs_native": True, "native": CSSP_FORGED_NATIVE,
+                 "detail": "cssp_connect no longer has the recognised shape (three writes, one BigUint equality between the unsealed reply and key + 1 guarding the credential write): %s; "
+                           "confirmed only if the native battery (real cssp_connect over in-memory TLS; forged replies: key, key+2, key-1, prefixes, suffixes, bit flips, empty, extension, garbage, close; "
+                           "both modes) finds an accepted forgery or a write after one" % str(e)[:200], "where": f.name}]
+
+
+def _cssp_order(ctx, mir, stats):
     f = find_fn(mir, r"^cssp_connect$")
     writes = call_blocks(f, r"Link::<S>::write$")
     cmpb = call_blocks(f, r"<BigUint as PartialEq>::(ne|eq)$")
@@ -705,6 +724,16 @@ def cssp_order(ctx, mir, stats):
 # C17: restricted admin mode wiring
 # --------------------------------------------------------------------------
 def cssp_restricted(ctx, mir, stats):
+    try:
+        return _cssp_restricted(ctx, mir, stats)
+    except Inconclusive as e:
+        f = find_fn(mir, r"^cssp_connect$")
+        return [{"id": "cssp:recognised-credential-wiring", "ok": False, "functions": [f.name], "needs_native": True, "native": CSSP_RESTRICTED_NATIVE,
+                 "detail": "the construction of TSCredentials in cssp_connect is no longer recognised (%s); confirmed only if the native replay (real cssp_connect over in-memory TLS, identity sealing) "
+                           "sees credential bytes in the last message in restricted admin mode, or a different message than TSCredentials(domain, user, password) in normal mode" % str(e)[:200], "where": f.name}]
+
+
+def _cssp_restricted(ctx, mir, stats):
     f = find_fn(mir, r"^cssp_connect$")
     se = SymExec(f, stats, max_paths=5000).run()
     obs = []
@@ -2346,7 +2375,7 @@ def guarded_by(fn_regex, guard_regex, target_regex, what, native=None):
     return fn
 
 
-def acyclic(src_rel, allow=()):
+def acyclic(src_rel, allow=(), native=None):
     """E2: no function defined in the given source file has a cycle in its CFG (a loop that could spin), except the listed ones."""
     def fn(ctx, mir, stats):
         text = open(os.path.join(ctx["src"], src_rel)).read() if "src" in ctx else ""
@@ -2362,7 +2391,7 @@ def acyclic(src_rel, allow=()):
             cyc = [b for b in f.order if not f.blocks[b].cleanup and any(fp_reachable(f, t, b, stats) for lab, t in f.succs(b))]
             ok = not cyc or f.name in allow
             if cyc or base in names:
-                obs.append({"id": "%s:acyclic" % f.name[-50:], "ok": ok, "functions": [f.name], "needs_native": True,
+                obs.append({"id": "%s:acyclic" % f.name[-50:], "ok": ok, "functions": [f.name], "needs_native": True, "native": None if ok else native,
                             "detail": "no loop in %s" % f.name if not cyc else "%s contains a loop (blocks %s): a read loop on the NLA path can spin on a closed or stalled connection" % (f.name, cyc[:4]), "where": f.name})
         if not obs:
             raise Inconclusive("ENCODING-FAILED: no function of %s found in the MIR" % src_rel)
